@@ -1,5 +1,7 @@
 """CFG utilities over vdrv bodies: edges, definite-variant pruning (PRUNE), reachability with
 cuts (CUT), dominators, natural loops, control dependence."""
+import re
+
 from .facts import Operand, Place
 
 # callee paths that return their Result/Option argument with the same variant
@@ -12,6 +14,12 @@ VARIANT_PRESERVING = {
 }
 
 # (adt path, variant index) -> variant index of the ControlFlow returned by Try::branch
+def _is_payload0(place):
+    """`(x as V).0` (possibly behind derefs): the single payload field of an enum variant."""
+    pr = [p for p in place.proj if p != "*"]
+    return len(pr) == 2 and isinstance(pr[0], dict) and "dc" in pr[0] and isinstance(pr[1], dict) and pr[1].get("f") == 0
+
+
 TRY_BRANCH = {
     ("std::result::Result", 0): 0,  # Ok -> Continue
     ("std::result::Result", 1): 1,  # Err -> Break
@@ -172,11 +180,13 @@ class CFG:
         IN[0] = {}
         work = [0]
         result = {}
+        self._switch_on = {}     # switch block -> local whose discriminant it tests
 
         def transfer(bb, state, record):
             st = dict(state)
             blk = body.blocks[bb]
             discr_of = {}
+            discr_src = {}
             for s in blk.stmts:
                 if s.kind == "assign":
                     lhs = s.lhs
@@ -188,15 +198,30 @@ class CFG:
                     k = rv["k"]
                     if k == "agg" and rv.get("ak") == "adt":
                         st[l] = (rv["adt"], rv["vi"])
+                        # one level of payload: Ok(None), Ok(Some(x)), Some(Err(e)) ...
+                        st.pop((l, 0), None)
+                        ops = rv.get("ops") or []
+                        if len(ops) == 1:
+                            o0 = Operand(ops[0])
+                            if o0.place is not None and o0.place.is_local and o0.place.local in st:
+                                st[(l, 0)] = st[o0.place.local]
                     elif k == "use":
                         op = Operand(rv["a"])
+                        st.pop((l, 0), None)
                         if op.place is not None and op.place.is_local and op.place.local in st:
                             st[l] = st[op.place.local]
+                            if (op.place.local, 0) in st:
+                                st[(l, 0)] = st[(op.place.local, 0)]
+                        elif op.place is not None and (op.place.local, 0) in st and _is_payload0(op.place):
+                            # `(x as Variant).0` of a value whose payload variant is known
+                            st[l] = st[(op.place.local, 0)]
                         else:
                             st.pop(l, None)
                     elif k == "discr":
                         p = Place(rv["p"])
                         st.pop(l, None)
+                        if p.is_local:
+                            discr_src[l] = p.local
                         if p.is_local and p.local in st:
                             discr_of[l] = st[p.local][1]
                     elif k in ("ref", "rawptr"):
@@ -209,6 +234,13 @@ class CFG:
                 elif s.kind == "setdiscr":
                     st.pop(s.lhs.local, None)
             t = blk.term
+            self._last_switch_value = None
+            if t.kind == "switch":
+                d = Operand(t.raw["d"])
+                if d.place is not None and d.place.is_local and d.place.local in discr_src:
+                    self._switch_on[bb] = discr_src[d.place.local]
+                if d.place is not None and d.place.is_local:
+                    self._last_switch_value = discr_of.get(d.place.local)
             if t.kind == "switch" and record:
                 d = Operand(t.raw["d"])
                 if d.place is not None and d.place.is_local and d.place.local in discr_of:
@@ -219,6 +251,7 @@ class CFG:
                 dest = t.dest
                 args = t.args
                 newv = None
+                payload = None
                 if dest is not None and dest.is_local:
                     a0 = args[0] if args else None
                     a0v = None
@@ -234,17 +267,32 @@ class CFG:
                             m = TRY_BRANCH.get((a0v[0], a0v[1]))
                             if m is not None:
                                 newv = ("std::ops::ControlFlow", m)
+                                if m == 0 and (a0.place.local, 0) in st:
+                                    payload = st[(a0.place.local, 0)]
+                    if t.callee == "std::ops::FromResidual::from_residual":
+                        # `?` on a failure: the value built from the residual is the failure variant
+                        rty = t.rty or ""
+                        if rty.startswith("std::result::Result<"):
+                            newv = ("std::result::Result", 1)
+                        elif rty.startswith("std::option::Option<"):
+                            newv = ("std::option::Option", 0)
                 # arguments moved / mutably borrowed are gone
                 for a in args:
                     if a.place is not None and a.kind == "move" and a.place.is_local:
                         st.pop(a.place.local, None)
+                        st.pop((a.place.local, 0), None)
                 if dest is not None:
+                    st.pop((dest.local, 0), None)
                     if dest.is_local and newv is not None:
                         st[dest.local] = newv
+                        if payload is not None:
+                            st[(dest.local, 0)] = payload
                     else:
                         st.pop(dest.local, None)
             return st
 
+        self._vtransfer = transfer
+        self._vIN = IN
         iters = 0
         while work:
             bb = work.pop()
@@ -308,6 +356,86 @@ class CFG:
         """Blocks reachable when starting by *taking* the given edges."""
         starts = [e.dst for e in edges]
         return self.reachable(starts, cut_nodes, cut_edges)
+
+    def precise_reach(self, edges, cut_nodes=(), cut_edges=()):
+        """Blocks reachable when starting by taking `edges`, following only paths that are consistent with the enum
+        variants established *on those paths* (the variant state at the starting edge, refined by the edge itself,
+        is propagated forward and joined only with other paths that also start at `edges`).  Sound: a block is
+        dropped only if every path from the edges to it passes a `match` arm that contradicts a definitely known
+        variant."""
+        if not getattr(self, "_vIN", None):
+            return self.edge_targets_reachable(edges, cut_nodes, cut_edges)
+        body = self.body
+        cut_nodes = set(cut_nodes)
+        ce3 = {c.key() if isinstance(c, Edge) else tuple(c) for c in cut_edges}
+
+        def adt_of(local):
+            ty = body.local_tys[local]
+            ty = re.sub(r"^(&(mut )?)+", "", ty)
+            for pre, name in (("std::result::Result<", "std::result::Result"), ("std::option::Option<", "std::option::Option"),
+                              ("std::ops::ControlFlow<", "std::ops::ControlFlow")):
+                if ty.startswith(pre):
+                    return name
+            return re.sub(r"<.*$", "", ty)
+
+        def out_state(e):
+            st_in = self._vIN[e.src]
+            if st_in is None:
+                return None
+            st = self._vtransfer(e.src, st_in, False)
+            return refine(e, st)
+
+        def refine(e, st):
+            if isinstance(e.label, tuple) and e.label[0] == "sw" and e.src in self._switch_on and isinstance(e.label[1], int):
+                l = self._switch_on[e.src]
+                st = dict(st)
+                st[l] = (adt_of(l), e.label[1])
+            return st
+
+        IN = {}
+        work = []
+        for e in edges:
+            st = out_state(e)
+            if st is None or e.dst in cut_nodes:
+                continue
+            if e.dst in IN:
+                IN[e.dst] = {k: v for k, v in IN[e.dst].items() if st.get(k) == v}
+            else:
+                IN[e.dst] = dict(st)
+            work.append(e.dst)
+        it = 0
+        while work:
+            it += 1
+            if it > 20000:
+                return self.edge_targets_reachable(edges, cut_nodes, cut_edges)
+            bb = work.pop()
+            rec = {}
+            blk = body.blocks[bb]
+            # known discriminant at this block's switch under the path state?
+            known = {}
+            saved = None
+            st_out = self._vtransfer(bb, IN[bb], False)
+            decided = None
+            t = blk.term
+            if t.kind == "switch":
+                decided = self._last_switch_value     # discriminant value known at the read, under the path state
+            for e in self.succ.get(bb, []):
+                if e.dst in cut_nodes or e.key() in ce3:
+                    continue
+                if decided is not None and isinstance(e.label, tuple) and e.label[0] == "sw":
+                    vals = [x.label[1] for x in self.succ.get(bb, []) if isinstance(x.label, tuple)]
+                    if e.label[1] != decided and not (e.label[1] == "otherwise" and decided not in vals):
+                        continue
+                st = refine(e, st_out)
+                if e.dst not in IN:
+                    IN[e.dst] = dict(st)
+                    work.append(e.dst)
+                else:
+                    new = {k: v for k, v in IN[e.dst].items() if st.get(k) == v}
+                    if new != IN[e.dst]:
+                        IN[e.dst] = new
+                        work.append(e.dst)
+        return set(IN)
 
     def live_blocks(self):
         return self.reachable(self.entry)
